@@ -4,7 +4,7 @@
 (* pass machine.  Checked: a build that ends "ok" is a fixed point of the reference       *)
 (* semantics (no value of an earlier pass survives), and the loop ends within MaxPass.    *)
 EXTENDS Asm
-CONSTANTS MaxLen, MaxLen2, MaxLen3, MaxLen4, MaxPass, Origin, Shrinking
+CONSTANTS MaxLen, MaxLen2, MaxLen3, MaxLen4, MaxLen5, MaxPass, Origin, Shrinking
 
 N(n) == [k |-> "num", n |-> n, radix |-> "dec", lz |-> 0]
 Id(p) == [k |-> "id", name |-> JoinPath(p), path |-> p, mod |-> ""]
@@ -62,6 +62,11 @@ Alphabet4 ==
    [k |-> "if", e |-> Gt0("a"), then |-> <<CallM>>, hasElse |-> TRUE, else |-> <<Insn("nop", "imp", N(0))>>, sid |-> "0"]}
 Programs4 == UNION {[1..n -> Alphabet4] : n \in 1..MaxLen4}
 NoPrune == FALSE
+(* a fifth family: one statement in front of the segment definitions of the second family.  It has no segment to go to:
+   the build must fail; in the pinned reading (SilentDrop for NoSegmentError) it succeeded without the statement's bytes *)
+Programs5 == UNION {[1..n -> Alphabet2] : n \in 0..(MaxLen5 - 1)}       \* MaxLen5 = 0 switches the family off
+Fronts == {Insn("nop", "imp", N(0)), Insn("lda", "dir", Id(<<"a">>)), [k |-> "data", w |-> 2, es |-> <<N(7)>>, sid |-> "0"]}
+SilentDrop == FALSE
 Programs == UNION {[1..n -> Alphabet] : n \in 1..MaxLen}
 Programs2 == UNION {[1..n -> Alphabet2] : n \in 1..MaxLen2}
 Sid(p) == [i \in 1..Len(p) |-> [p[i] EXCEPT !.sid = ToString(i)]]
@@ -72,6 +77,7 @@ vars == <<prog, m>>
 
 Init == /\ prog \in {<<SetPc>> \o Sid(p) : p \in Programs} \cup {Prelude2 \o Sid(p) : p \in Programs2} \cup {<<SetPc3>> \o Sid(p) : p \in Programs3}
                   \cup {<<MacroM, SetPc>> \o Sid(p) : p \in Programs4}
+                  \cup (IF MaxLen5 = 0 THEN {} ELSE {<<[f EXCEPT !.sid = "front"]>> \o Prelude2 \o Sid(p) : f \in Fronts, p \in Programs5})
         /\ m = MInit
 Pass == /\ m.phase = "run" /\ m.pass < MaxPass
         /\ m' = Decide(m, RunPass(prog, m, TRUE), 8192)
@@ -88,6 +94,8 @@ FixedPoint ==
     /\ \A k \in DOMAIN m.tab : m.tab[k].k = "num" => k \in DOMAIN R.tab
     /\ DOMAIN R.segs = DOMAIN m.segs
     /\ \A n \in DOMAIN R.segs : R.segs[n].mem = m.segs[n].mem /\ R.segs[n].pc = m.segs[n].pc
+    (* the image holds the bytes of every statement: a top-level instruction or data statement has a source-map entry *)
+    /\ \A i \in 1..Len(prog) : prog[i].k \in {"insn", "data"} => \E j \in 1..Len(R.srcmap) : R.srcmap[j].sid = prog[i].sid
 (* the pass loop terminates within the bound on this program space *)
 Terminates == ~(m.phase = "run" /\ m.pass >= MaxPass)
 (* vacuity witnesses: these are *expected to be violated* (used by the check to show that "ok" and "failed"
